@@ -98,6 +98,16 @@ def extract (comp : Char → Char) (rec : Seq) (l : Loc) : Seq :=
 /-- the ORF's own nucleotides `w[s .. e+3)` -/
 def orfSeq (w : Seq) (s e : Nat) : Seq := (w.drop s).take (e + 3 - s)
 
+/-! ### the protein an ORF encodes -/
+
+/-- unambiguous upper-case DNA -/
+def acgt : List Char := ['A', 'C', 'G', 'T']
+
+/-- one residue per codon from the second codon up to the one before the stop, read off the codon
+    table, after a leading methionine (whatever the start codon) -/
+def specProtein (tbl : List (Seq × Char)) (w : Seq) (s e : Nat) : List Char :=
+  'M' :: ((List.range ((e - s) / 3 - 1)).map fun i => ((lookupAa tbl (codonAt w (s + 3 * (i + 1)))).getD 'X'))
+
 /-! ### how the scanned window relates to the record
 
   `find_all_orfs` cuts `chunk = record[offset .. offset + n)` (around the origin when `offset < 0`)
